@@ -84,14 +84,14 @@ def replay_known(rep, prop, want=None):
         if kf.get("property") != prop or "program" not in kf:
             continue
         w = kf["program"]
-        task = (0, {"sources": w["sources"]}, "default", want)
+        task = (0, {"sources": w["sources"]}, "default", list(want) + [kf.get("fails_key", prop)])
         P_vectors = P.vectors
         try:
             P.vectors = lambda kind, _o=w.get("options_list") or [w.get("options", {})]: list(_o)
             rec = P.full_task(task)
         finally:
             P.vectors = P_vectors
-        fs = rec.get("fails", {}).get(prop, [])
+        fs = rec.get("fails", {}).get(kf.get("fails_key", prop), [])
         needle = kf.get("expect", "")
         hit = [f for f in fs if needle in f["what"]]
         if hit:
